@@ -1,0 +1,7 @@
+//go:build !verif
+
+package core
+
+func verifStage(*JApiCore, string) {}
+
+func verifFile(*JApiCore, string, string) {}
